@@ -225,8 +225,7 @@ func (t *HHWheelTimer) worker(ready chan struct{}) {
 			t.update(current)
 
 		case node := <-t.pendingAdd:
-			node.deadline += t.tickTime + node.period
-			t.addNode(node)
+			t.handleAdd(node)
 
 		case node := <-t.pendingDel:
 			t.delTimer(node)
@@ -235,6 +234,18 @@ func (t *HHWheelTimer) worker(ready chan struct{}) {
 			return
 		}
 	}
+}
+
+// accept a start request, unless the timer was cancelled in the meantime
+func (t *HHWheelTimer) handleAdd(node *WheelTimerNode) {
+	t.guard.Lock()
+	var scheduled = t.refer[node.id] == node
+	t.guard.Unlock()
+	if !scheduled {
+		return
+	}
+	node.deadline += t.tickTime + node.period
+	t.addNode(node)
 }
 
 func (t *HHWheelTimer) update(current int64) {
@@ -279,7 +290,9 @@ func (t *HHWheelTimer) addNode(node *WheelTimerNode) {
 }
 
 func (t *HHWheelTimer) delTimer(node *WheelTimerNode) {
-	node.bucket.removeNode(node)
+	if node.bucket != nil { // not linked: never accepted, or expired already
+		node.bucket.removeNode(node)
+	}
 }
 
 func (t *HHWheelTimer) cascade(level, idx int) {
